@@ -83,7 +83,16 @@ def run(chk, tier):
                         continue
                     cases.append(Case("c%d" % len(cases), "#[allow(unused_imports)] use super::*;\n" + body, has_run=False,
                                       meta=dict(derive=derive, scope=scope, gen=g["name"], src=item)))
-    chk.part("space", programs=len(cases), derives=len(tab), scopes=["#[no_implicit_prelude] + `use ::derive_more;`", "every prelude type/variant/trait name and std macro shadowed by a local item", "a local blanket trait with by-value methods named like %d std trait methods" % len(STD_METHODS), "lower-case constants named like the bindings of the expansions (known finding)"],
+    # fifth scope: local types named like the primitive types the expansions themselves spell (`bool`, `str`, the repr integers).  Hand-placed
+    # items whose own tokens name no primitive; std's derives on the same items compile in this scope (checked by the control line)
+    prim = "\n".join("#[allow(non_camel_case_types, dead_code)] pub struct %s;" % n for n in ("bool", "str", "isize", "usize", "u8", "i8", "u16", "i32", "u64", "char", "f64"))
+    for derive, item in (("IsVariant", "pub enum S { A, B(super::super::H<(), 1>) }"), ("IsVariant", "pub enum S<T> { A(T), B }"), ("FromStr", "pub enum S { A, B }"), 
+                         ("TryFrom", "#[try_from(repr)] pub enum S { A, B }"), ("TryFrom", "#[try_from(repr)] #[repr(u8)] pub enum S { A = 1, B }"), ("TryFrom", "#[try_from(repr)] #[repr(i32)] pub enum S { A = -1, B, Cc(super::super::H<(), 1>) }"),
+                         ("Unwrap", "pub enum S { A(super::super::H<(), 1>), B }"), ("TryUnwrap", "pub enum S { A(super::super::H<(), 1>), B }"), ("Display", "#[display(\"x\")] pub struct S;"),
+                         ("Debug", "pub struct S { a: super::super::H<(), 1> }"), ("Constructor", "pub struct S(super::super::H<(), 1>);"), ("Not", "pub enum S { A(super::super::H<(), 1>), B }"), ("Add", "pub enum S { A(super::super::H<(), 1>), B }")):
+        body = "pub mod m {\n    %s\n    #[derive(::core::clone::Clone, ::core::cmp::PartialEq, ::core::fmt::Debug, ::core::hash::Hash)] pub enum Control { A, B }\n    #[derive(derive_more::%s)] %s\n}" % (prim, derive, item)
+        cases.append(Case("c%d" % len(cases), "#[allow(unused_imports)] use super::*;\n" + body, has_run=False, meta=dict(derive=derive, scope="primitive_names_shadowed", gen="none", src="#[derive(derive_more::%s)] %s" % (derive, item))))
+    chk.part("space", programs=len(cases), derives=len(tab), scopes=["#[no_implicit_prelude] + `use ::derive_more;`", "every prelude type/variant/trait name and std macro shadowed by a local item", "a local blanket trait with by-value methods named like %d std trait methods" % len(STD_METHODS), "lower-case constants named like the bindings of the expansions (known finding)", "local types named like the primitive types (bool, str, the integers)"],
              shadowed_names=len(SHADOW_TYPES) + len(SHADOW_TRAITS) + len(SHADOW_MACROS) + 3, generics=[g["name"] for g in gens])
     eng = CompileEngine("C15", header=c01.HEADER, prelude=c01.PRELUDE, mode="check", per_bin=max(20, len(cases) // 16 + 1))
     results = eng.run_cases(cases)
